@@ -69,6 +69,16 @@ class ShimCompute:
         return ShimScalar(nans[0] if nans else None)
 
     @staticmethod
+    def min_max(col, **kw):
+        lo, hi = ShimCompute.min(col).as_py(), ShimCompute.max(col).as_py()
+
+        class _Struct(ShimScalar):
+            def __getitem__(self_, k):
+                return ShimScalar(self_.v[k])
+
+        return _Struct({"min": lo, "max": hi})
+
+    @staticmethod
     def is_nan(col):
         return ShimColumn([None if v is None else _isnan(v) for v in col.values], None)
 
